@@ -502,8 +502,6 @@ def parallel_trace_oracle(c, o, which):
             v.failures.append('threads were still alive after the call returned: %s' % rest)
             return v
         v.nontrivial = True
-    if hang:
-        return v
     if panic:
         if 'errors' in which or 'terminate' in which:
             v.failures.append('the parallel call panicked (config %s)' % cfg)
@@ -557,7 +555,7 @@ def parallel_trace_oracle(c, o, which):
         if cfg['T'] == 1 and [k for _, k in crs] != sorted(k for _, k in crs):
             v.failures.append('single worker thread, but batches arrived out of order: %s' % [k for _, k in crs])
             return v
-        clean = not cfg['riFail'] and cfg['dsFail'] is None
+        clean = not cfg['riFail'] and cfg['dsFail'] is None and not hang
         if clean and cfg['stop'] is None and (not cfg['endErr'] or cfg['cont']):
             if sorted(k for _, k in crs) != list(range(cfg['N'])):
                 v.failures.append('draining consumer received batches %s of %d' % (sorted(k for _, k in crs), cfg['N']))
@@ -565,6 +563,8 @@ def parallel_trace_oracle(c, o, which):
     if 'errors' in which:
         if nce > 1 or (nce == 1 and not cfg['endErr']):
             v.failures.append('the consumer received %d errors (reader fails: %s)' % (nce, cfg['endErr']))
+            return v
+        if hang:
             return v
         clean = not cfg['riFail'] and cfg['dsFail'] is None
         if clean and cfg['endErr'] and cfg['stop'] is None and nce != 1:
@@ -602,7 +602,7 @@ def parallel_real_oracle(c, o, s, which):
     t = c.split(' ')
     fmt, T, stop = t[1], int(t[2]), (None if t[5] == '-' else int(t[5]))
     if 'HANG' in o or 'leak=0' not in o:
-        if 'terminate' in which:
+        if 'terminate' in which or 'HANG' in o:
             v.failures.append('parallel call hung or left threads behind: %s' % o[-80:])
         return v
     if o.startswith('PANIC'):
@@ -892,6 +892,8 @@ def alloc_oracle(case, toks):
             return v
         if t.startswith('S'):
             m = int(t[1:])
+            if op[0] == 'e' and not op.endswith('.1'):
+                continue    # an exact-count batch may need a larger buffer
             seen = max_batch.get(op, 0)
             if idx >= warm and seen >= m and seen > 0:
                 v.nontrivial = True
@@ -970,4 +972,62 @@ def iter_oracle(c, o, s):
     if '!' in ow or ow != ('S' * n + 'NNN') * 2:
         v.failures.append('owned-record iterator: %s' % ow)
         return v
+    return v
+
+
+# ---------------------------------------------------------------- C13 views agree (independent of the model)
+
+def _valid_utf8(b):
+    try:
+        b.decode('utf-8')
+        return True
+    except UnicodeDecodeError:
+        return False
+
+
+def views_oracle(case, toks):
+    """every view of a record agrees with the others, judged on the implementation's output alone"""
+    v = Verdict()
+    fmt = case['fmt']
+    for idx, tok in enumerate(toks):
+        t = strip_growth(tok)
+        if t in ('PANIC', 'HANG'):
+            v.failures.append('%s at op %d' % (t, idx))
+            return v
+        recs = []
+        if t.startswith('R:'):
+            recs = [parse_fields(t[2:])]
+        elif t.startswith('I:') and t[2:]:
+            recs = [parse_fields(x) for x in t[2:].split('/')]
+        for f in recs:
+            v.nontrivial = True
+            h = bytes.fromhex(f.get('h', ''))
+            idb = bytes.fromhex(f.get('i', ''))
+            d = f.get('d', '-')
+            desc = None if d == '-' else bytes.fromhex(d[1:])
+            if idb + (b' ' + desc if desc is not None else b'') != h or b' ' in idb or (desc is None) != (b' ' not in h):
+                v.failures.append('op %d: id/description %r/%r do not split the header %r at its first space' % (idx, idb, desc, h))
+                return v
+            flags = f.get('v', '')
+            want = '%d%d%d1' % (_valid_utf8(idb), True if desc is None else _valid_utf8(desc), _valid_utf8(h))
+            if flags != want:
+                v.failures.append('op %d: text accessors (id, desc, id_desc, agreement) gave %s, the bytes say %s (header %r)' % (idx, flags, want, h))
+                return v
+            if fmt == 'fa':
+                lines = f.get('l', '').split('.')[:-1]
+                n = int(f.get('n', -1))
+                if n != len(lines):
+                    v.failures.append('op %d: num_seq_lines %d but %d lines iterated' % (idx, n, len(lines)))
+                    return v
+                if (f.get('b') == '1') != (n == 1):
+                    v.failures.append('op %d: full_seq borrowed=%s with %d lines' % (idx, f.get('b'), n))
+                    return v
+                raw = bytes.fromhex(f.get('r', ''))
+                joined = b''.join(bytes.fromhex(x) for x in lines)
+                if raw.replace(b'\n', b'').replace(b'\r', b'') != joined.replace(b'\n', b'').replace(b'\r', b''):
+                    v.failures.append('op %d: raw sequence and sequence lines differ by more than line terminators' % idx)
+                    return v
+                if n == 1 and raw != joined:
+                    v.failures.append('op %d: single line, but seq() differs from it' % idx)
+                    return v
     return v
